@@ -98,9 +98,9 @@ CHECKS.update({
 })
 CHECKS.update({
  'C04': ('exploration', 'bounded exhaustive enumeration of (instruction form, initial state) pairs against the host CPU',
-         'About 1500 integer-core forms (incl. one register in both positions, esp-addressed stack operands, bit tests with register/immediate offsets on memory) encoded by GNU as; for each the full product of an 18(+2)-value boundary alphabet over its input locations x all 64 '
+         'About 1500 integer-core forms (incl. one register in both positions, esp-addressed stack operands, bit tests with register/immediate offsets on memory, far-pointer loads and mov/push/pop of segment registers over the loadable ring-3 selectors) encoded by GNU as; for each the full product of an 18(+2)-value boundary alphabet over its input locations x all 64 '
          'status-flag assignments for flag-reading forms is executed on the host CPU (native runner) and by evaluating the lifted assignment list under '
-         'irsem with parallel assignment; GPRs, defined flags, the data window and the control-flow outcome are compared (SDM undefined table masked). '
+         'irsem with parallel assignment; GPRs, es/ds/fs/gs/ss, defined flags, the data window and the control-flow outcome are compared (SDM undefined table masked). '
          'The quick tier caps each form at 3000 states (every k-th element of the product) and is therefore not exhaustive; the thorough tier is.',
          'Trusts the host CPU, the undefined-flag table and irsem. 32-bit values only from the boundary alphabet.', '4 C04'),
  'C07': ('model_checking', 'explicit-state BFS over the real emul_lines/eval_instr with canonical-state de-duplication, every trace replayed against a concrete byte machine',
@@ -110,9 +110,9 @@ CHECKS.update({
          'constant/symbolic base, each history in a forked child (a failing 3-store history is attributed to its failing 2-store sub-history); rep string instructions (F3 and F2 forms) with counts 0..3 and at the runaway-guard boundary against the architectural loop.',
          'The concrete machine interprets the same lifted IR under irsem (the lifter itself is C04). Different symbolic bases are assumed not to alias.', '4 C07'),
  'C08': ('exploration', 'bounded exhaustive enumeration of (form, base state, perturbed location) triples on the host CPU',
-         'For every form (integer core by mnemonic x operand form, 62 x87 forms, 99 MMX/SSE forms) x 3 base states, every location of the observed universe is '
+         'For every form (integer core by mnemonic x operand form, 62 x87 forms, 99 MMX/SSE forms, 38 segment-register forms) x 3 base states, every location of the observed universe (GPRs, flags, es/fs/gs, x87/MMX/SSE registers, and every single byte of the memory operands) is '
          'perturbed in isolation (2 values) on the CPU; a location that changes a written output is a real read and must be in the union of get_r; every '
-         'location that changes must be in the union of get_w, and every byte of the data window the processor changes must lie inside a memory destination of get_w evaluated in the base state.',
+         'location that changes must be in the union of get_w, and every byte of the data window the processor changes must lie inside a memory destination of get_w evaluated in the base state; every byte whose value alone changes a result must lie inside a memory cell of get_r(mem_read=True) evaluated in the base state (for segment forms a fault caused by the perturbation is a result).',
          'Dependencies are decided on 3 base states x 2 perturbations per location. MXCSR, FIP/FDP/FOP and x87/MMX aliasing are outside the universe.', '4 C08'),
  'C12': ('model_checking', 'explicit-state exploration of API-call histories on the real library (fork per history from a pristine image), pure-function model',
          'ALL histories of length 1..2 (thorough 3 over a 26-call sub-alphabet) over an alphabet of 41 API calls (incl. instruction objects held across calls) run in forked children of a pristine image; after each history every probe '
